@@ -1,10 +1,10 @@
 SPECIFICATION Spec
 CONSTANTS
-  DtNames = {"NE", "DN"}
-  Edits = 1
+  DtNames = {"ST", "IN"}
+  Edits = 2
   MaxTail = 2
   Wide = FALSE
-  Deep = FALSE
+  Deep = TRUE
   Dump = TRUE
 INVARIANT RefSound
 INVARIANT DtSound
